@@ -552,7 +552,8 @@ package store
 // Sync hands over to the flush goroutine and blocks until the write queue is drained: the flush loop runs
 // meanwhile (it only ever adds to the datastore, moves head/tail and announces heights).
 //@ func (*Store).Sync(s, ctx)
-//@   trusted
+//@   ensures [C17,C08,C14,C04,C06] nil-only-after-answer: result == nil ==> recvd("store.(*Store).Sync.waitCh") == 1 -- nil is returned only after the flush loop has answered this very request (it closes the channel only on an observed empty write queue, flushLoop#before:close:answered-only-when-drained); a stopped store or an ended context is an error
+//@   ensures [C17,C08,C14,C04,C06] stopped-or-cancelled-is-an-error: recvd("Store.writesDn") > 0 ==> result != nil
 //@   modifies $now, ghost:hcHas, ghost:hcVal, ghost:icHas, ghost:icVal, ghost:btHas, ghost:btPuts, ghost:btVal, ghost:dsHas, ghost:dsVal, ghost:dsWrites, AP_set, AP_val_Hdr, AT_u64, MH_Int_Hdr_has, MH_Int_Hdr_val, MH_Str_Int_has, MH_Str_Int_val, sub.count, MH_Int_Int_has, MH_Int_Int_val, ghost:arrived
 
 //@ pure acceptedRange(from, to, hd, tl) = from < to && from <= hd.Height() && to > tl.Height() && ((from == tl.Height() && to <= hd.Height() + 1) || (to == hd.Height() + 1 && from >= tl.Height()))
